@@ -526,10 +526,10 @@ def check_collapse_numeric(idx: Index, rep: Report):
         v = np.array(vec, dtype=complex)
         v = v / np.linalg.norm(v)
         nq = int(round(math.log2(len(v))))
-        for order in ("lsq_first", "msq_first"):
+        for order in ("lsq_first", "msq_first", "LSQ_FIRST", "Msq_First"):          # the order name is validated case-insensitively: every accepted spelling means the same order
             for q in range(nq):
                 for res in (0, 1):
-                    bit = [(i >> (nq - 1 - q if order == "lsq_first" else q)) & 1 for i in range(len(v))]
+                    bit = [(i >> (nq - 1 - q if order.lower() == "lsq_first" else q)) & 1 for i in range(len(v))]
                     proj = np.array([a if b == res else 0 for a, b in zip(v, bit)])
                     p = float(np.sum(np.abs(proj) ** 2))
                     label = f"{len(v)} amplitudes, qubit {q} -> {res}, {order}, probability {p:.3g}"
